@@ -332,7 +332,7 @@ def run(ch, render=False):
                 if raw is not None:
                     raw.eof_reads = 0            # progress: the end-of-stream poll budget counts polls WITHOUT progress
                 try:
-                    ib = bytes(memoryview(item))
+                    ib = bytes(memoryview(getattr(item, "raw_data", item)))
                 except TypeError:      # not bytes-like at all: judged below
                     ib = None
                 w.ev("consumer", "item", -1 if ib is None else len(ib))
@@ -404,7 +404,7 @@ def run(ch, render=False):
             # "byte-identical": any bytes-like object (bytes, a bytes subclass, bytearray, memoryview ...) whose content is
             # the packet; only something that is not bytes-like at all is a wrong type
             try:
-                ib = bytes(memoryview(item))
+                ib = bytes(memoryview(getattr(item, "raw_data", item)))      # the packet itself, or an object carrying it
             except TypeError:
                 out.fail("wrong_type", f"item {i} is {type(item).__name__}, not a bytes-like object ({desc})")
                 break
